@@ -35,6 +35,7 @@ def check(cx):
         'R3.3 census of assignments to `authenticated`; each assigned value implies CAP ended, NICK+USER given, mask matched, required password verified (user password before server password)',
         'R3.4 wrong/missing password: 464, quit flag stored, no user created',
         'R3.5 a registration attempt that ends without a user (nick taken meanwhile) does not leave the connection marked as registered (shared rule C02 R2.3)',
+        'R3.8 the table through which a configured user (its password and mask) is found maps every configured name, verbatim, to its entry',
         'R3.6 CAP LS/REQ suspend, END resumes; PASS/NICK/USER re-enter authenticate only while unauthenticated',
         'R3.7 pre-registration handlers have no shared-state effect or cross-user send except the guarded add_user',
     ]
@@ -179,6 +180,10 @@ def check(cx):
         if not ok:
             r3.violation('authenticate|auth-value-unjustified', 'authenticated can become true without (CAP ended, NICK, USER, '
                          'mask match, required password verified): %s' % model_str(m), loc=cx.loc(e.node))
+
+    # ---------------------------------------------------------------- R3.8 the configured user is found under its own name
+    r38 = cx.rule('R3.8', 'configured-user lookup table', floor=1, kind='provenance')
+    rule_config_index_tables(cx, r38, which=('user_config_idxs',))
 
     # ---------------------------------------------------------------- R3.5 registered flag <=> user exists
     from .C02 import rule_auth_implies_registered
